@@ -99,6 +99,14 @@ def load(R):
            "and same(index_entry(p._index_bytes, k).result_type, PARENT_INDEX(p)[k].result_type) and same(index_entry(p._index_bytes, k).content_key, PARENT_INDEX(p)[k].content_key))) "
            # ... and nothing else is in it
            "and forall(str, lambda k: implies(index_has(p._index_bytes, k), own_key(p, k) or PARENT_HAS(p, k)))")
+    # From the property ("... for chains of any length and whether the parent was ... built in memory"): a partition object that has been stored can
+    # itself be the merge parent of a later one, so what it records about its stored form must describe the WHOLE stored result -- inherited
+    # entries included --, not only its own keys.
+    R.spec("STORED_AS_PARENT", ["p", "ds"],
+           "p._output_keys is not None and same(p._parent_data_source, ds) "
+           "and forall(str, lambda k: (k in p._output_keys) == index_has(p._index_bytes, k)) "
+           "and forall(str, lambda k: implies(k in p._output_keys, same(p._output_keys[k].result_type, index_entry(p._index_bytes, k).result_type) "
+           "and same(p._output_keys[k].content_key, index_entry(p._index_bytes, k).content_key)))")
     S = "storage_base:DefaultCodec.PicklePartitionStrategy.store"
     COMMON_REQ = ["implies(obj._merge_parent is not None and truthy(obj._merge_parent) and not isinstance(obj._merge_parent, DefaultCodec.PicklePartition), "
                   "has_attr(obj._merge_parent, '_output_keys') == (obj._merge_parent._output_keys is not None) or True)"]
@@ -115,10 +123,9 @@ def load(R):
                    loops={2: ["forall(str, lambda k: (k in index) == (k in keys and pos(keys, k) < loop_i))",
                               "forall(str, lambda k: implies(k in keys and pos(keys, k) < loop_i, not index[k].from_parent and same(index[k].result_type, rtype_of(value_of(obj, k))) "
                               "and same(index[k].content_key, stored_key(data_source, (key_override + '/' + k) if key_override is not None else None, value_of(obj, k)))))",
-                              "forall(str, lambda k: (k in output_keys) == (k in index)) and forall(str, lambda k: implies(k in index, output_keys[k] == index[k]))",
                               "same(obj._data_source, old(obj._data_source)) and same(obj._output_keys, old(obj._output_keys)) and same(obj._parent_data_source, old(obj._parent_data_source))",
                               "same(self._codec, old(self._codec))"]},
-                   labels={"local_types": {"index": TDict(TStr, Entry), "output_keys": TDict(TStr, Entry)}},
+                   labels={"local_types": {"index": TDict(TStr, Entry)}},
                    modifies=["heap:_output_keys", "heap:_data_source", "heap:_parent_data_source", "heap:_index_bytes"])
     # ---- a partition with a merge parent: the parent's index is inherited, the partition's own keys are layered on top
     PI = "PARENT_INDEX(obj)"
@@ -128,7 +135,9 @@ def load(R):
                          "and obj._merge_parent._output_keys is not None)",
                          "%s is not None" % PI, "forall(obj, lambda x: implies(x in %s, isinstance(x, str) and %s[x] is not None))" % (PI, PI),
                          "has_attr(obj, '_output_keys') == has_attr(obj, '_parent_data_source')"],
-               ensures=["OVERLAY(obj, data_source, key_override)"],
+               ensures=["OVERLAY(obj, data_source, key_override)",
+                        # a partition with a parent is as good a parent as one without (chains of any length)
+                        "implies(has_attr(obj, '_output_keys'), STORED_AS_PARENT(obj, data_source))"],
                raises={"OSError+": [], "ValueError": []},
                loops={1: ["forall(str, lambda k: (k in index) == (k in %s and pos(loop_list, k) < loop_i))" % PI,
                           "forall(str, lambda k: implies(k in index, index[k] == _ResultTypeAndContentKey(%s[k].result_type, %s[k].content_key, True)))" % (PI, PI),
@@ -138,11 +147,11 @@ def load(R):
                           "and same(index[k].content_key, stored_key(data_source, (key_override + '/' + k) if key_override is not None else None, value_of(obj, k)))))",
                           "forall(str, lambda k: implies(k in %s and not (k in keys and pos(keys, k) < loop_i), index[k] == _ResultTypeAndContentKey(%s[k].result_type, %s[k].content_key, True)))" % (PI, PI, PI),
                           "same(self._codec, old(self._codec))"]},
-               labels={"local_types": {"index": TDict(TStr, Entry), "output_keys": TDict(TStr, Entry)}},
+               labels={"local_types": {"index": TDict(TStr, Entry)}},
                modifies=["heap:_output_keys", "heap:_data_source", "heap:_parent_data_source", "heap:_index_bytes"])
     # an in-memory partition: stored once, it must be able to serve as the merge parent of a later partition -- it remembers its output keys and
     # the data source they were written to (the documented field _parent_data_source)
-    REMEMBER = ["obj._output_keys is not None", "forall(str, lambda k: (k in obj._output_keys) == own_key(obj, k))", "same(obj._parent_data_source, data_source)"]
+    REMEMBER = ["STORED_AS_PARENT(obj, data_source)"]
     variant("inmemory", True, False, True, REMEMBER)
     # an on-disk partition additionally keeps reading its staged values from its OWN data source: storing must not re-point it
     variant("ondisk", True, True, True, REMEMBER + ["same(obj._data_source, old(obj._data_source))"])
